@@ -207,7 +207,7 @@ StSwap == /\ Len(stack) = 2 /\ Top(0).k = Top(1).k /\ Scalar(Top(0).k) /\ ~InIf 
           /\ scope' = [x \in DOMAIN scope \cup {"u", "v"} |-> IF x \in {"u", "v"} THEN Top(0).k ELSE scope[x]]
           /\ stack' = <<>> /\ nst' = nst + 2 /\ UNCHANGED done
 StIfOpen == /\ Len(stack) = 1 /\ Top(0).k = "b" /\ Top(0).hv /\ nst < MaxStmts
-            /\ (~InIf \/ (CurFrame.kind = "else" /\ Len(CurFrame.stmts) = 0 /\ Len({j \in 1..Len(frames) : frames[j].kind \in {"if", "else"}}) = 1))
+            /\ (~InIf \/ (CurFrame.kind = "else" /\ Len(CurFrame.stmts) = 0 /\ Cardinality({j \in 1..Len(frames) : frames[j].kind \in {"if", "else"}}) = 1))
             /\ \E n \in DOMAIN scope : n \in NewNames                      \* something to assign to
             /\ frames' = Append(frames, [kind |-> "if", test |-> Top(0).n, stmts |-> <<>>, body |-> <<>>])
             /\ stack' = <<>> /\ nst' = nst + 1 /\ UNCHANGED <<scope, done>>
